@@ -25,9 +25,9 @@ import (
 // PRNG-chosen member list -> restart -> membership, state, leader, new
 // proposals. A second kind of case corrupts one file of the export first.
 func importerMode(r *common.Run, sk *sink) {
-	r.SetRule("each case = real NodeHosts (5 hosts, shard on 3 of them, optional removed member and non-voting member before the export), PRNG-chosen store / state machine kind / export point / new member list (subset of old members, old + entirely new ids on spare hosts, single member), a battery of invalid imports checked for refusal and for an unchanged file tree, the valid import on every listed host, restart and comparison of membership and state with the exported state; corruption cases flip one byte or truncate / delete one file of the export and require refusal or exactly the exported state; non-trivial = proposals were made after the export point (so that a wrong state is distinguishable) and the restarted shard completed a new proposal; distinct by hash of (options, member list, outcome)")
+	r.SetRule("each case = real NodeHosts (6 hosts, shard on 3 of them, optional removed member, non-voting member and witness before the export), PRNG-chosen store / state machine kind / export point / new member list (subset of old members, old + entirely new ids on spare hosts, single member), a battery of invalid imports checked for refusal and for an unchanged file tree, the valid import on every listed host, restart and comparison of membership and state with the exported state; corruption cases flip one byte or truncate / delete one file of the export and require refusal or exactly the exported state; non-trivial = proposals were made after the export point (so that a wrong state is distinguishable) and the restarted shard completed a new proposal; distinct by hash of (options, member list, outcome)")
 	r.Assume("the exported state is reconstructed from the apply records of the instrumented state machine up to the index returned by the export request")
-	n := r.Pick(24, 400)
+	n := r.Pick(48, 600)
 	for _, c := range r.MyCases(n) {
 		runImport(r, sk, c, r.Rand("import", c), r.SubSeed("import-seed", c))
 		r.Flush()
@@ -129,11 +129,12 @@ func runImport(r *common.Run, sk *sink, caseNo int, rng *rand.Rand, seed int64) 
 	kind := []cluster.SMKind{cluster.Regular, cluster.Concurrent, cluster.OnDisk}[rng.Intn(3)]
 	withRemoved := rng.Intn(3) == 0
 	withNonVoting := rng.Intn(3) == 0
+	withWitness := rng.Intn(3) == 0
 	corrupt := rng.Intn(3) == 0
 	before := 10 + rng.Intn(60)
 	after := 5 + rng.Intn(30)
 	fmt.Printf("import case %d store %s sm %s removed %v nonvoting %v corrupt %v before %d after %d\n", caseNo, store, kind, withRemoved, withNonVoting, corrupt, before, after)
-	c := cluster.NewCluster(cluster.Options{Hosts: 5, Seed: seed, RTTMs: 10, Store: store,
+	c := cluster.NewCluster(cluster.Options{Hosts: 6, Seed: seed, RTTMs: 10, Store: store,
 		SMOpt: func(uint64, uint64) cluster.SMOptions {
 			return cluster.SMOptions{Kind: kind, RecordApply: true}
 		}}, sk)
@@ -225,6 +226,22 @@ func runImport(r *common.Run, sk *sink, caseNo int, rng *rand.Rand, seed int64) 
 		cfg := cluster.ShardConfig(shardID, 9)
 		cfg.IsNonVoting = true
 		if err := c.Hosts[3].StartReplica(nil, true, kind, cfg); err != nil {
+			r.Inconclusive(fmt.Sprintf("case %d: %v", caseNo, err))
+			return
+		}
+	}
+	witnessID := uint64(0)
+	if withWitness {
+		if !syncCC(func(ctx context.Context, nh *dragonboat.NodeHost) error {
+			return nh.SyncRequestAddWitness(ctx, shardID, 8, c.Hosts[5].Addr, 0)
+		}) {
+			r.Inconclusive(fmt.Sprintf("case %d: could not add the witness", caseNo))
+			return
+		}
+		witnessID = 8
+		cfg := cluster.ShardConfig(shardID, 8)
+		cfg.IsWitness = true
+		if err := c.Hosts[5].StartReplica(nil, true, kind, cfg); err != nil {
 			r.Inconclusive(fmt.Sprintf("case %d: %v", caseNo, err))
 			return
 		}
@@ -379,6 +396,14 @@ func runImport(r *common.Run, sk *sink, caseNo int, rng *rand.Rand, seed int64) 
 		}
 		m[nonVotingID] = c.Hosts[3].Addr
 		refuse("non-voting-listed-as-regular-member", ah, srcDir, m, anyID)
+	}
+	if witnessID != 0 {
+		m := map[uint64]string{}
+		for k, v := range newMembers {
+			m[k] = v
+		}
+		m[witnessID] = c.Hosts[5].Addr
+		refuse("witness-listed-as-regular-member", ah, srcDir, m, anyID)
 	}
 	for id, addr := range oldMembers {
 		if id != anyID {
@@ -598,12 +623,19 @@ func runImport(r *common.Run, sk *sink, caseNo int, rng *rand.Rand, seed int64) 
 				return
 			}
 		}
+		if witnessID != 0 {
+			if _, ok := m.Removed[witnessID]; !ok {
+				sk.Violation("C20", "unlisted-old-member-not-marked-removed",
+					fmt.Sprintf("replica %d: old witness %d is not recorded as removed (removed set %v)", id, witnessID, m.Removed), wit)
+				return
+			}
+		}
 	}
 	sk.Count("imports_completed", 1)
-	r.Case(after > 0 && progressed, common.Hash(store.String(), kind.String(), fmt.Sprint(newMembers), shape, withRemoved, withNonVoting, corrupt))
+	r.Case(after > 0 && progressed, common.Hash(store.String(), kind.String(), fmt.Sprint(newMembers), shape, withRemoved, withNonVoting, withWitness, corrupt))
 	if r.WantSample() {
 		r.Sample(map[string]interface{}{"case": caseNo, "store": store.String(), "sm": kind.String(), "export_index": exportIndex,
-			"new_members": newMembers, "old_members": oldMembers, "removed_before": removedID, "non_voting_before": nonVotingID,
+			"new_members": newMembers, "old_members": oldMembers, "removed_before": removedID, "non_voting_before": nonVotingID, "witness_before": witnessID,
 			"corruption": corruptWhat, "proposals_after_export": after})
 	}
 }
